@@ -3,6 +3,7 @@ package main
 import (
 	"fmt"
 	"runtime"
+	"strings"
 	"sync/atomic"
 	"time"
 
@@ -110,6 +111,95 @@ func janDeliver(maxY int) bool {
 // and sweeps.
 func janTickFlush(maxY int) bool {
 	return janDeliver(maxY) && janDeliver(maxY) && janDeliver(maxY)
+}
+
+// libGoroutinesIdle: every goroutine the library itself started (its "created by"
+// line names a function of the library package) is parked in a select, a channel
+// receive or a sleep - i.e. a janitor is back in its wait, not inside a pass.
+// Decided from runtime.Stack, so it does not depend on how the janitor is written.
+func libGoroutinesIdle() bool {
+	buf := make([]byte, 1<<20)
+	for {
+		n := runtime.Stack(buf, true)
+		if n < len(buf) {
+			buf = buf[:n]
+			break
+		}
+		buf = make([]byte, 2*len(buf))
+	}
+	for _, g := range strings.Split(string(buf), "\n\n") {
+		i := strings.Index(g, "created by github.com/fufuok/cache.")
+		if i < 0 || strings.Contains(g[i:], "/zzverif/") {
+			continue
+		}
+		hdr := g
+		if j := strings.IndexByte(g, '\n'); j >= 0 {
+			hdr = g[:j]
+		}
+		a, b := strings.IndexByte(hdr, '['), strings.IndexByte(hdr, ']')
+		if a < 0 || b < a {
+			return false
+		}
+		state := hdr[a+1 : b]
+		if k := strings.IndexByte(state, ','); k >= 0 {
+			state = state[:k]
+		}
+		switch state {
+		case "select", "chan receive", "sleep", "select (no cases)", "chan receive (nil chan)":
+		default:
+			return false
+		}
+	}
+	return true
+}
+
+// janQuiesce waits (bounded yields) until no delivered tick is pending and every
+// library goroutine is back in its wait: the passes triggered so far are complete.
+func janQuiesce(maxY int) bool {
+	for i := 0; i < maxY; i++ {
+		pending := false
+		for _, t := range vshim.Tickers() {
+			if t.Armed() && t.Pending() {
+				pending = true
+			}
+		}
+		if !pending && libGoroutinesIdle() {
+			return true
+		}
+		for y := 0; y < 50; y++ {
+			runtime.Gosched()
+		}
+	}
+	return false
+}
+
+// janAdvanceTo moves the virtual clock to now and delivers a tick to every armed
+// source that is DUE at that instant (a ticker whose period the janitor has
+// stretched with Reset, or a timer it has not re-armed, gets none), then waits for
+// the pass to complete. delivered reports how many ticks went out; ok is false
+// if a due tick was not accepted or the janitor did not come back to its wait.
+func janAdvanceTo(now int64, maxY int) (delivered int, ok bool) {
+	vshim.SetVNow(now)
+	for round := 0; round < 4; round++ {
+		n := 0
+		for _, s := range armedSources() {
+			due, sent := s.FireDue(now, maxY)
+			if due && !sent {
+				return delivered, false
+			}
+			if sent {
+				n++
+			}
+		}
+		delivered += n
+		if !janQuiesce(maxY / 64) {
+			return delivered, false
+		}
+		if n == 0 {
+			break
+		}
+	}
+	return delivered, true
 }
 
 // janFireNoWait offers one tick to every armed source without waiting.
@@ -280,12 +370,12 @@ func runJanitorCase(res *result, r rng, jc janCase, idx int64) {
 			vshim.SetVNow(now)
 			// deliver tick t, then two more "flush" ticks at the same instant: when the
 			// third is accepted, the pass triggered by the first has completed
-			ok := janTickFlush(maxYield)
+			nd, ok := janAdvanceTo(now, maxYield)
 			if !ok {
-				bad("janitor does not consume ticks", fmt.Sprintf("tick %d at +%d not accepted within %d yields", t, now-epoch, maxYield))
+				bad("janitor does not consume ticks", fmt.Sprintf("tick %d at +%d: a due tick was not accepted or the pass did not complete within %d yields", t, now-epoch, maxYield))
 				return
 			}
-			res.count("ticks_delivered", 3)
+			res.count("ticks_delivered", int64(nd))
 			fp.add(uint64(t), uint64(now-epoch))
 			// bounded cleanup: everything that expired strictly before this tick must be
 			// gone after at most 2 further intervals (we allow until the pass of tick t+2)
@@ -313,7 +403,7 @@ func runJanitorCase(res *result, r rng, jc janCase, idx int64) {
 		// final: exactly the unexpired remain (all expiries are far from `now` or in the past by > 0)
 		vshim.SetVNow(now + int64(jc.interval))
 		now += int64(jc.interval)
-		janTickFlush(maxYield)
+		janAdvanceTo(now, maxYield)
 		want := 0
 		wantCb := map[any]int{}
 		for _, e := range ents {
@@ -598,8 +688,7 @@ func janitorPair(res *result, flavor string) {
 		ok := true
 		for t := 0; t < 3 && ok; t++ {
 			now += int64(interval)
-			vshim.SetVNow(now)
-			ok = janTickFlush(maxYield)
+			_, ok = janAdvanceTo(now, maxYield)
 		}
 		vshim.SetMode(0)
 		bad := func(sig, msg string) {
